@@ -50,6 +50,7 @@ import (
 	"github.com/markusmobius/go-domdistiller/internal/logutil"
 	"github.com/markusmobius/go-domdistiller/internal/stringutil"
 	"github.com/markusmobius/go-domdistiller/internal/webdoc"
+	"github.com/markusmobius/go-domdistiller/vtrace"
 )
 
 type ArticleExtractor struct {
@@ -134,6 +135,10 @@ func (ae *ArticleExtractor) Extract(doc *webdoc.TextDocument, wc stringutil.Word
 }
 
 func (ae *ArticleExtractor) printArticleLog(doc *webdoc.TextDocument, changed bool, header string) {
+	if vtrace.On {
+		vtrace.Emit("TextFilter", "name", header, "blocks", doc.VerifBlocks())
+	}
+
 	if ae.logger == nil {
 		return
 	}
